@@ -101,6 +101,20 @@ MORE3 = {
  "C14": " chars (one string per character, in order) and to_str; a numeral prefix is followed by digits, `0x` is a prefix in radix 16 only (D87).",
  "C16": " Parser::list_type returns for every child the grammar delivers; the cost discipline of the type comparison (components compared once per level: D88).",
 }
+MORE4 = {
+ "C01": " The smallest code generators (Ident, return, print, break, continue) emit exactly their instruction(s).",
+ "C02": " Map types are invariant (PartialEq for MapType); a method's parameters are not names of the other methods; a present optional handed out by a built-in is the plain value. Known finding D99 (lists shared between aliases are accepted covariantly).",
+ "C03": " Every diagnostic names the source file: all construction sites of compiler/src sliced to their file argument.",
+ "C06": " A numeric literal folds to itself (the leaf of the walk).",
+ "C07": " A from loop's counter is not declared for the rest of the block; only a function boundary lets a same-named local stand for a captured variable.",
+ "C08": " A class declared inside a function can be declared again on the next call.",
+ "C11": " The compilation queue: every queued module is compiled and delivered exactly once, with its own code.",
+ "C13": " map / filter yield a new list (bridge new / finish).",
+ "C16": " `Self` outside a class and `self: T` are diagnostics; the grammar's ordered choices do not parse a nesting construct twice (certificates over the extracted rule graph, checked by the verifier).",
+ "C17": " Known finding D102 (the trace also lists block frames).",
+}
+for _k, _v in MORE4.items():
+    MORE3[_k] = MORE3.get(_k, "") + _v
 for _k, _v in MORE3.items():
     MORE[_k] = MORE.get(_k, "") + _v
 NOTES = {
